@@ -586,6 +586,8 @@ func H_CreateBig() {
 	var err error
 	panicked := vx.CatchPanic(func() { pB, err = jsonpatch.CreateMergePatch(a, b) })
 	vx.Assert(!panicked && err == nil, "C03/big-numbers-succeeds")
+	vx.Assert(!panicked && err == nil, "C15/create-big-numbers-succeeds")
+	vx.Assert(!panicked && err == nil, "C17/big-numbers-decode")
 	vx.Assert(!panicked, "C04/create-no-panic")
 	if panicked || err != nil {
 		return
